@@ -1335,7 +1335,8 @@ class Process(StateMachine, persistence.Savable, metaclass=ProcessStateMachineMe
         """
         assert not self.has_terminated(), 'Cannot step, already terminated'
 
-        if self.paused and self._paused is not None:
+        while self.paused and self._paused is not None:
+            # Wait until played. Checked again after waking up: the process may have been paused anew in the meantime
             await self._paused
 
         try:
